@@ -5,6 +5,8 @@
  *                              kinds: buf hbuf hcnt huni gen mbuf cfg top reply raw stream iterf itern
  *        rawdata (plot data object): modify m <dim> <form> | advance m | rget m a | setin m a | rread m | rconv m;
  *        its stage buffer is object kind "stage"
+ *   <id> p <op> <args> ...     deferrable reply context: reply data set / defer (accepted, refused) / send / detached reply /
+ *                              addref / unref with a recording send callback (see run_reply)
  *   <id> r <cop> <args> ...    mpt_refcount_raise / mpt_refcount_lower on a bare counter (set <hex> | raise | lower)
  *
  * Token per operation: <out>|<objects>|<slots>|<events>, last token L<0|1> (LeakSanitizer), see ml/c15_driver.ml.
@@ -720,6 +722,152 @@ static void run_objects(int ntok, char **tok)
 		vh_tok("L%d", leak ? 1 : 0);
 	}
 }
+/* ---- family p: the deferrable reply context with its reply data, detached replies and send callback ----
+ *   pnew d <hex max> | pset s <hex len> <hex id> | pdefer s d | psend s <0|1> | preply d <0|1> | paddref s d | punref s | pfail <0|1>
+ *   token: <out>[;s<ctx>:<len>:<id>[m]]*|<contexts>|<slots>|-   (see ml/c15_driver.ml) */
+static char sendlog[2048];
+static size_t sendlen;
+static int send_fail;
+static int p_send_cb(void *ptr, const MPT_STRUCT(reply_data) *rd, const MPT_STRUCT(message) *msg)
+{
+	int o = (int) (uintptr_t) ptr - 1, bad = 0;
+	uint8_t id = rd->len ? (rd->val[0] & 0x7f) : 0;
+	size_t i;
+	if (!rd->len || !(rd->val[0] & 0x80)) bad = 1;     /* the id is flagged as reply while it is on its way */
+	for (i = 1; i < rd->len; i++) if (rd->val[i] != id) bad = 1;
+	if (sendlen + 64 < sizeof(sendlog)) {
+		sendlen += sprintf(sendlog + sendlen, ";s%d:%x:%x%s%s", o, (unsigned) rd->len, (unsigned) id, msg ? "m" : "", bad ? "!" : "");
+	}
+	return send_fail ? -5 : 7;
+}
+static void p_data(const MPT_STRUCT(reply_data) *rd)
+{
+	size_t i;
+	if (!rd->len) { vh_add("-"); return; }
+	vh_add("%x:%x", (unsigned) rd->len, (unsigned) rd->val[0]);
+	for (i = 1; i < rd->len; i++) if (rd->val[i] != rd->val[0]) { vh_add("!"); break; }
+}
+static void p_dump(void)
+{
+	int i, any = 0;
+	vh_add("|");
+	for (i = 0; i < nobj; i++) {
+		MPT_STRUCT(reply_context_defer) *ctx = MPT_baseaddr(reply_context_defer, optr(i), _mt);
+		if (i) vh_add(",");
+		if (!alive(i)) { vh_add("x"); continue; }
+		vh_add("%llx.%s.", (unsigned long long) ctx->ref._val, ctx->reply.send ? "e" : "d");
+		p_data(&ctx->data);
+	}
+	if (!nobj) vh_add("-");
+	vh_add("|");
+	for (i = 0; i < 6; i++) {
+		if (!mslot[i]) continue;
+		vh_add("%s%d:%d", any ? "," : "", i, find_obj(mslot[i]));
+		any = 1;
+	}
+	for (i = 0; i < 3; i++) {
+		struct replyDataDelayed *def = (void *) dslot[i];
+		if (!def) continue;
+		vh_add("%s%d:%d/", any ? "," : "", i + 9, find_obj(&def->base->_mt));
+		p_data(&def->data);
+		any = 1;
+	}
+	if (!any) vh_add("-");
+	vh_add("|-");
+}
+static void p_result(int r)
+{
+	if (r < 0) vh_tok("N%x%s", (unsigned) -r, sendlog); else vh_tok("R%x%s", (unsigned) r, sendlog);
+}
+static void run_reply(int ntok, char **tok)
+{
+	static const char text[] = "ok";
+	MPT_STRUCT(message) msg = MPT_MESSAGE_INIT;
+	int t = 2;
+	msg.base = text; msg.used = 2;
+	while (t < ntok) {
+		const char *op = tok[t++];
+		sendlen = 0; sendlog[0] = 0;
+		if (!strcmp(op, "pnew")) {
+			int d = ARGI(0);
+			unsigned long max = strtoul(tok[t + 1], 0, 16);
+			t += 2;
+			if (d < 0 || d >= 6 || mslot[d]) vh_tok("X");
+			else {
+				MPT_INTERFACE(metatype) *m = mpt_reply_deferrable(max, p_send_cb, (void *) (uintptr_t) (nobj + 1));
+				if (!m) vh_tok("E");
+				else if (m->_vptr->clone(m)) vh_tok("?clone");
+				else { reg_obj(KREPLY, m); mslot[d] = m; vh_tok("D"); }
+			}
+		}
+		else if (!strcmp(op, "pset")) {
+			int s = ARGI(0);
+			unsigned long len = strtoul(tok[t + 1], 0, 16), id = strtoul(tok[t + 2], 0, 16);
+			t += 3;
+			if (s < 0 || s >= 6 || !mslot[s] || len > 64 || id < 1 || id > 127) vh_tok("X");
+			else {
+				MPT_STRUCT(reply_context_defer) *ctx = MPT_baseaddr(reply_context_defer, mslot[s], _mt);
+				MPT_STRUCT(reply_data) *rd = 0;
+				uint8_t val[64];
+				int r;
+				memset(val, (int) id, sizeof(val));
+				if (mslot[s]->_vptr->convertable.convert((void *) mslot[s], MPT_ENUM(TypeReplyDataPtr), &rd) < 0 || rd != &ctx->data) vh_tok("?conv");
+				else if ((r = mpt_reply_set(rd, len, val)) < 0) vh_tok("E");
+				else vh_tok("R%x", (unsigned) r);
+			}
+		}
+		else if (!strcmp(op, "pdefer") || !strcmp(op, "psend")) {
+			int s = ARGI(0), d = ARGI(1);
+			MPT_INTERFACE(reply_context) *rc = 0;
+			t += 2;
+			if (s < 0 || s >= 6 || !mslot[s] || (op[1] == 'd' && (d < 9 || d >= 12 || dslot[d - 9]))) vh_tok("X");
+			else if (mslot[s]->_vptr->convertable.convert((void *) mslot[s], MPT_ENUM(TypeReplyPtr), &rc) < 0
+			         || rc != &MPT_baseaddr(reply_context_defer, mslot[s], _mt)->_ctx) vh_tok("?conv");
+			else if (op[1] == 'd') {
+				MPT_INTERFACE(reply_context_detached) *def = rc->_vptr->defer(rc);
+				if (!def) vh_tok("E%s", sendlog);
+				else { dslot[d - 9] = def; vh_tok("D%s", sendlog); }
+			}
+			else p_result(rc->_vptr->reply(rc, d ? &msg : 0));
+		}
+		else if (!strcmp(op, "preply")) {
+			int d = ARGI(0), m = ARGI(1);
+			t += 2;
+			if (d < 9 || d >= 12 || !dslot[d - 9]) vh_tok("X");
+			else {
+				MPT_INTERFACE(reply_context_detached) *def = dslot[d - 9];
+				int r = def->_vptr->reply(def, m ? &msg : 0);
+				if (r >= 0) dslot[d - 9] = 0;       /* the handle is consumed unless the reply is refused */
+				p_result(r);
+			}
+		}
+		else if (!strcmp(op, "paddref")) {
+			int s = ARGI(0), d = ARGI(1);
+			t += 2;
+			if (s < 0 || s >= 6 || d < 0 || d >= 6 || !mslot[s] || mslot[d]) vh_tok("X");
+			else {
+				uintptr_t r = mslot[s]->_vptr->addref(mslot[s]);
+				if (r) mslot[d] = mslot[s];
+				vh_tok("R%llx", (unsigned long long) r);
+			}
+		}
+		else if (!strcmp(op, "punref")) {
+			int s = ARGI(0);
+			t += 1;
+			if (s < 0 || s >= 6 || !mslot[s]) vh_tok("X");
+			else { MPT_INTERFACE(metatype) *m = mslot[s]; mslot[s] = 0; m->_vptr->unref(m); vh_tok("D%s", sendlog); }
+		}
+		else if (!strcmp(op, "pfail")) {
+			send_fail = ARGI(0) != 0;
+			t += 1;
+			vh_tok("D");
+		}
+		else { vh_tok("?op:%s", op); break; }
+		p_dump();
+	}
+	clear_stack();
+	vh_tok("L%d", __lsan_do_recoverable_leak_check() ? 1 : 0);
+}
 static void run_counter(int ntok, char **tok)
 {
 	MPT_STRUCT(refcount) *ref = malloc(sizeof(*ref));   /* exact-size block */
@@ -742,6 +890,7 @@ static void run_case(int ntok, char **tok)
 	if (ntok < 2) return;
 	if (!strcmp(tok[1], "c")) run_objects(ntok, tok);
 	else if (!strcmp(tok[1], "r")) run_counter(ntok, tok);
+	else if (!strcmp(tok[1], "p")) run_reply(ntok, tok);
 	else vh_tok("?family");
 }
 int main(int argc, char **argv)
